@@ -351,6 +351,21 @@ theorem c10_generated_equals_trans (env : Env) (f : Nat) (ty : Ty) (a b c : Valu
     valueEq env f ty a c = true :=
   eqTrans env f ty a b c ha hb hc h₁ h₂
 
+/-- generated `Equals` is a partial equivalence: whatever is Equal to something is Equal to itself.
+Plain reflexivity is false — a NaN field is not `==` itself in Go (`example` below) — and this is
+the part of it that holds for every schema and value. -/
+theorem c10_generated_equals_refl_on_domain (env : Env) (f : Nat) (ty : Ty) (a b : Value)
+    (ha : MapsOK a) (hb : MapsOK b) (h : valueEq env f ty a b = true) :
+    valueEq env f ty a a = true ∧ valueEq env f ty b b = true :=
+  ⟨eqTrans env f ty a b a ha hb ha h (eqSymm env f ty a b ha hb h),
+   eqTrans env f ty b a b hb ha hb (eqSymm env f ty a b ha hb h) h⟩
+
+/-- the counter-witness to plain reflexivity: a record holding a NaN is not Equal to itself -/
+theorem c10_generated_equals_not_refl_cex :
+    valueEq [("B", .record [] [⟨[120], .prim .f64, false, none⟩])] 3 (.ref "B")
+      (.record [([120], .f64 0x7FF8000000000001)]) (.record [([120], .f64 0x7FF8000000000001)]) = false := by
+  decide
+
 /-- the depth budget of the model is not part of the verdict: a pair the generated `Equals` accepts
 at some budget is accepted at every larger one (the Go code has no budget at all) -/
 theorem c10_generated_equals_fuel_irrelevant (env : Env) (f g : Nat) (hfg : f ≤ g) (ty : Ty) (a b : Value)
